@@ -15,13 +15,17 @@ import (
 	"sync"
 	"time"
 
+	"github.com/gorilla/websocket"
+
 	"tunnox-core/internal/core/types"
 	"tunnox-core/internal/packet"
+	"tunnox-core/internal/protocol/adapter"
 	"tunnox-core/internal/stream"
 	"tunnox-core/verifsim/simnet"
 	"tunnox-core/verifsim/simnode"
 	"tunnox-core/verifsim/simrt"
 	"tunnox-core/verifsim/simstore"
+	"tunnox-core/verifsim/simws"
 )
 
 // C05 — hostile bytes cannot crash the server or make it allocate without bound.
@@ -78,9 +82,9 @@ func init() {
 			"a hostile byte stream of 1-10 segments (hand-framed packets over all dispatcher types and random type/flag bytes with valid-shaped, wrong-typed, deeply nested, huge-number, null, truncated, non-UTF-8 or random JSON; " +
 			"command packets over all command types; gzip-flagged bodies: valid, garbage, concatenated members, truncated trailer, bad CRC, 1-4 MiB of zeros and (1 run in 50) a bomb inflating to 24-80 MiB (256 MiB in thorough); " +
 			"adversarial length fields 0/1/2^31/2^32-1/max-1/max/max+1/12*max with a short body; raw random bytes; floods of up to 800 empty five-byte packets; bit-flipped frames; 1 run in 8 carries bodies of 1-16 MiB), a truncation offset, " +
-			"the transport segmentation law of the server's reads, how the stream ends (half-close, close, reset, 10 minute stall then close), pauses between segments, optionally a legitimate second client, a first-connect by the hostile peer, and storage errors (k-th operation or 1/8 of operations fail). " +
-			"Non-trivial: the real decoder/dispatcher actually consumed at least one segment that is not a well-formed request (the server read past its first byte, or HandlePacket was called with it); distinct = distinct schedule hashes of such runs.",
-		Real: []string{"internal/stream StreamProcessor.ReadPacket (+buffer pool)", "internal/stream/compression GzipReader", "internal/protocol/adapter BaseAdapter.handleConnection/connectionReadLoop",
+			"the transport segmentation law of the server's reads, how the stream ends (half-close, close, reset, 10 minute stall then close), the transport of the served connection (plain stream with up to 3 injected transient read timeouts, or in 1/3 of the serve runs the real WebSocket wrapper over a real gorilla connection: stream sent as split/merged binary messages mixed with text messages, pings, unsolicited pongs, mid-stream close frames and illegal frames; the peer does or does not answer the server's pings; ends with or without a close frame or goes silent past every transport timeout), pauses between segments, optionally a legitimate second client, a first-connect by the hostile peer, and storage errors (k-th operation or 1/8 of operations fail). " +
+			"Non-trivial: the real decoder/dispatcher actually consumed at least one segment that is not a well-formed request (the server read past its first byte, or HandlePacket was called with it), or the server consumed an illegal/unexpected WebSocket frame, or a deaf WebSocket peer stayed silent past the transport timeouts; distinct = distinct schedule hashes of such runs.",
+		Real: []string{"internal/stream StreamProcessor.ReadPacket (+buffer pool)", "internal/stream/compression GzipReader", "internal/protocol/adapter BaseAdapter.handleConnection/connectionReadLoop", "internal/protocol/adapter wsServerConn (read deadline, pong handler, ping loop) over github.com/gorilla/websocket",
 			"internal/protocol/session SessionManager.HandlePacket, handshake/tunnel/command/DNS/SOCKS5/traffic handlers", "internal/command CommandExecutor + registry", "internal/app/server auth, tunnel, connection-code, config, mapping, HTTP-domain command handlers", "internal/cloud services on the memory storage backend"},
 		Stub: []string{"transport: simnet link whose server end counts Reads issued after the end of the stream", "peer: harness writing hand-built bytes", "storage faults: simstore wrapper"},
 		Assumptions: []string{
@@ -88,6 +92,7 @@ func init() {
 			"sync.Pool is modelled by a per-run free list that is never emptied by GC, so up to 2 large pooled buffers per run are tolerated by the retention bound",
 			"a oneway/ignored packet may legitimately produce neither an error nor a reply; only crashing, not returning, or over-allocating is flagged for HandlePacket",
 			"live heap is measured as HeapAlloc after two forced GCs (more exact than HeapInuse)",
+			"more than 16 failed Reads in a row at one simulated instant without a byte delivered is a retry storm (a retry after a timeout must be able to block again)",
 			"a server that issues more than 16 further Reads after a Read returned EOF/reset/closed is spinning; a task that takes more than ~200k+60/byte scheduler steps without ever blocking is spinning (the second detector needs a fair scheduler and is inactive under a minimised all-zero choice stream)",
 		},
 		Opt: func(tier string) simrt.Options { return simrt.Options{MaxSteps: 6000000, MaxIdle: 96 * time.Hour} },
@@ -633,15 +638,36 @@ type c05crashT struct{ s string }
 
 var c05Sentinel = &c05crashT{"c05: spinning reader unwound by the harness"}
 
-// c05conn is the server end of the link: a simnet connection that counts the
-// Reads issued after the terminal result.
-type c05conn struct {
-	*simnet.Conn
-	w     *simrt.World
-	layer string
-	term  error
-	post  int
-	spun  bool
+// c05RetryLimit: failed Reads in a row at one and the same simulated instant
+// (no byte delivered, no time passed) before the harness calls it a retry storm.
+// A server that retries after a read timeout is fine as long as every retry
+// can block again; a transport that keeps failing immediately makes a
+// "continue on timeout" loop spin.
+const c05RetryLimit = 16
+
+// c05timeout is the transient read timeout the harness injects (fault net.timeout).
+type c05timeout struct{}
+
+func (c05timeout) Error() string   { return "c05: injected i/o timeout" }
+func (c05timeout) Timeout() bool   { return true }
+func (c05timeout) Temporary() bool { return true }
+
+// c05mon observes every Read the server issues on its transport object.
+type c05mon struct {
+	w         *simrt.World
+	layer     string
+	term      error
+	post      int
+	spun      bool
+	delivered int64 // bytes handed to the server so far
+	reads     int
+
+	errAt     time.Duration
+	errStreak int
+	lastErr   error
+
+	// injected transient timeouts: read index -> how many times in a row
+	timeouts map[int]int
 
 	// allocation sampled at every Read the server issues: a packet needs at
 	// least one Read, so whatever is allocated between two consecutive Reads
@@ -651,13 +677,12 @@ type c05conn struct {
 	maxDelta  uint64
 	maxFrom   int64 // bytes the server had consumed when the worst interval began
 	maxTo     int64
-	reads     int
 }
 
 // sample closes the current inter-Read interval.
-func (c *c05conn) sample() {
+func (c *c05mon) sample() {
 	now := c05TotalAlloc()
-	off := c.Conn.BytesRead()
+	off := c.delivered
 	if c.lastAlloc != 0 && now > c.lastAlloc {
 		if d := now - c.lastAlloc; d > c.maxDelta {
 			c.maxDelta, c.maxFrom, c.maxTo = d, c.lastOff, off
@@ -666,33 +691,78 @@ func (c *c05conn) sample() {
 	c.lastAlloc, c.lastOff = now, off
 }
 
-func (c *c05conn) Read(p []byte) (int, error) {
+func (c *c05mon) read(p []byte, inner func([]byte) (int, error)) (int, error) {
 	c.reads++
 	c.sample()
 	if c.term != nil {
 		c.post++
 		if c.post > c05SpinLimit {
 			c.spun = true
-			c.w.Violationf("C05:termination:spin:"+c.layer+":read-after-end", "the server issued %d more Reads on the transport after a Read had already returned %q (read %d bytes so far): it loops on a finished stream", c.post, c.term.Error(), c.Conn.BytesRead())
+			c.w.Violationf("C05:termination:spin:"+c.layer+":read-after-end", "the server issued %d more Reads on the transport after a Read had already returned %q (read %d bytes so far): it loops on a finished stream", c.post, c.term.Error(), c.delivered)
 			panic(c05Sentinel)
 		}
 	}
-	n, err := c.Conn.Read(p)
-	if err != nil {
-		if te, ok := err.(interface{ Timeout() bool }); !ok || !te.Timeout() {
+	var n int
+	var err error
+	if k := c.timeouts[c.reads]; k > 0 {
+		c.timeouts[c.reads] = 0
+		if k > 1 {
+			c.timeouts[c.reads+1] = k - 1
+		}
+		c.w.Fault("net.timeout")
+		err = c05timeout{}
+	} else {
+		n, err = inner(p)
+	}
+	c.delivered += int64(n)
+	if err == nil || n > 0 {
+		c.errStreak = 0
+		return n, err
+	}
+	if te, ok := err.(interface{ Timeout() bool }); !ok || !te.Timeout() {
+		if c.term == nil {
 			c.term = err
 		}
+	}
+	now := c.w.Now()
+	if c.errStreak > 0 && now == c.errAt {
+		c.errStreak++
+	} else {
+		c.errStreak = 1
+	}
+	c.errAt, c.lastErr = now, err
+	if c.errStreak > c05RetryLimit {
+		c.spun = true
+		c.w.Violationf("C05:termination:spin:"+c.layer+":retry-without-progress", "%d Reads in a row failed at the same simulated instant (%v) without delivering a byte, the last with %q: the server retries a transport that can only fail again (read %d bytes so far)", c.errStreak, now, err.Error(), c.delivered)
+		panic(c05Sentinel)
 	}
 	return n, err
 }
 
+// c05conn is the server end of a plain stream link.
+type c05conn struct {
+	*simnet.Conn
+	c05mon
+}
+
+func (c *c05conn) Read(p []byte) (int, error) { return c.read(p, c.Conn.Read) }
+
+// c05wsconn is the server's WebSocket connection object (the real
+// wsServerConn over a real gorilla connection over a simnet link).
+type c05wsconn struct {
+	net.Conn
+	c05mon
+}
+
+func (c *c05wsconn) Read(p []byte) (int, error) { return c.read(p, c.Conn.Read) }
+
 // c05Connect is simnode.Node.Connect with the server end wrapped in c05conn.
-func c05Connect(w *simrt.World, node *simnode.Node, name, addr string, cfg simnet.LinkConfig, layer string) (*simnode.Client, *c05conn) {
+func c05Connect(w *simrt.World, node *simnode.Node, name, addr string, cfg simnet.LinkConfig, layer string, timeouts map[int]int) (*simnode.Client, *c05conn) {
 	cfg.NameA = name
 	cfg.NameB = name + "@" + node.ID
 	cfg.AddrA = addr
 	a, b := simnet.NewLink(w, cfg)
-	sw := &c05conn{Conn: b, w: w, layer: layer}
+	sw := &c05conn{Conn: b, c05mon: c05mon{w: w, layer: layer, timeouts: timeouts}}
 	node.Adapter.Serve(sw)
 	cl := &simnode.Client{W: w, Name: name, Conn: a, Srv: b}
 	cl.SP = stream.NewStreamProcessor(a, a, w.Ctx)
@@ -700,9 +770,9 @@ func c05Connect(w *simrt.World, node *simnode.Node, name, addr string, cfg simne
 }
 
 // c05ConnID is the server-side id of the connection served on sw ("" once forgotten).
-func c05ConnID(node *simnode.Node, sw *c05conn) string {
+func c05ConnID(node *simnode.Node, sw net.Conn) string {
 	for _, sc := range node.SM.ListConnections() {
-		if sc.RawConn != nil && sc.RawConn == net.Conn(sw) {
+		if sc.RawConn != nil && sc.RawConn == sw {
 			return sc.ID
 		}
 	}
@@ -931,7 +1001,7 @@ func c05Decode(w *simrt.World, g *c05gen) {
 	}
 	a, b := simnet.NewLink(w, simnet.LinkConfig{NameA: "peer", NameB: "srv", LawAB: p.law, CutsAB: p.cuts})
 	w.SetCrashSentinel(c05Sentinel)
-	bw := &c05conn{Conn: b, w: w, layer: "decode"}
+	bw := &c05conn{Conn: b, c05mon: c05mon{w: w, layer: "decode"}}
 	rsp := stream.NewStreamProcessor(bw, bw, w.Ctx)
 	if _, err := a.Write(p.bytes); err != nil {
 		w.Violationf("C05:harness", "peer write failed: %v", err)
@@ -1074,6 +1144,19 @@ func c05Node(w *simrt.World, g *c05gen, direct bool) {
 	if direct {
 		layer = "dispatch"
 	}
+	// transport of the hostile connection: plain stream, or the real WebSocket
+	// wrapper over a real gorilla connection (its own deadlines, pings, errors)
+	ws := !direct && c.Intn(3, "transport") == 2
+	// transient read timeouts injected into the stream transport
+	var timeouts map[int]int
+	if !direct && !ws {
+		for k := c.Intn(4, "net.timeouts"); k > 0; k-- {
+			if timeouts == nil {
+				timeouts = map[int]int{}
+			}
+			timeouts[1+c.Intn(40, "net.timeout.at")] = 1 + c.Intn(3, "net.timeout.repeat")
+		}
+	}
 
 	mem := simstore.NewMemory(w)
 	st := simstore.New(w, "n1", mem)
@@ -1104,24 +1187,45 @@ func c05Node(w *simrt.World, g *c05gen, direct bool) {
 	}
 
 	w.SetCrashSentinel(c05Sentinel)
-	cl, sw := c05Connect(w, node, "hostile", "10.6.6.6:6666", simnet.LinkConfig{LawAB: p.law, CutsAB: p.cuts}, layer)
+	armStoreFault := func() {
+		switch storeFault {
+		case 2:
+			ops, _ := st.Ops()
+			st.FailAt = ops + failK
+		case 3:
+			st.FailNum, st.FailDen = 1, 8
+		}
+	}
+	budget := 250000 + 60*len(p.bytes)
+	if budget > 2500000 {
+		budget = 2500000
+	}
+	if ws && p.anyBig {
+		// Bodies of 1-16 MiB go over the plain stream only: as a WebSocket message
+		// they make the harness peer itself (frame masking, thousands of appends
+		// to the link buffer) allocate several times the body inside the very
+		// interval the oracle attributes to the server.
+		ws = false
+	}
+	if ws {
+		seen, ok := c05ServeWS(w, node, p, budget, armStoreFault)
+		if !ok {
+			return
+		}
+		if seen {
+			w.Nontrivial()
+		}
+		c05Retention(w, node, p, heavy, base, "serve-ws", budget)
+		return
+	}
+	cl, sw := c05Connect(w, node, "hostile", "10.6.6.6:6666", simnet.LinkConfig{LawAB: p.law, CutsAB: p.cuts}, layer, timeouts)
 	if preAuth {
 		if resp, ok := cl.Register("control"); ok && resp.Success {
 			g.ids = append(g.ids, resp.ClientID)
 			w.Probe("hostile.first-connect.ok")
 		}
 	}
-	switch storeFault {
-	case 2:
-		ops, _ := st.Ops()
-		st.FailAt = ops + failK
-	case 3:
-		st.FailNum, st.FailDen = 1, 8
-	}
-	budget := 250000 + 60*len(p.bytes)
-	if budget > 2500000 {
-		budget = 2500000
-	}
+	armStoreFault()
 	hostileSeen := false
 	srvClosed := func() bool { return cl.Srv.Closed() }
 
@@ -1225,7 +1329,7 @@ func c05Node(w *simrt.World, g *c05gen, direct bool) {
 			if w.Free() {
 				return // the run was cut (step cap): nothing measured from here on means anything
 			}
-			if c05ServeAlloc(w, p, sw, i) {
+			if c05ServeAlloc(w, p, &sw.c05mon, i) {
 				cl.Conn.Close()
 				return
 			}
@@ -1267,7 +1371,7 @@ func c05Node(w *simrt.World, g *c05gen, direct bool) {
 			return
 		}
 		sw.sample()
-		if c05ServeAlloc(w, p, sw, len(p.segs)-1) {
+		if c05ServeAlloc(w, p, &sw.c05mon, len(p.segs)-1) {
 			cl.Conn.Close()
 			return
 		}
@@ -1284,21 +1388,262 @@ func c05Node(w *simrt.World, g *c05gen, direct bool) {
 	if hostileSeen {
 		w.Nontrivial()
 	}
-	if heavy {
-		// let spawned handler tasks finish, then drop everything this run holds
-		c05Await(w, "main", func() bool { return false }, 2*time.Minute, budget)
-		node.Close()
-		w.Settle(3)
-		p.bytes = nil
-		for i := range p.segs {
-			p.segs[i].b = nil
-		}
-		live := c05Live()
-		if live > base+c05RetainBound {
-			w.Violationf("C05:retained:"+layer, "after the connection was closed, the node shut down and two GCs, the live heap is %d MiB above the baseline (bound %d MiB)", (live-base)>>20, c05RetainBound>>20)
-		}
-		w.Probe("retention.checked")
+	c05Retention(w, node, p, heavy, base, layer, budget)
+}
+
+// c05Retention: the live heap after the connection and the node are gone.
+func c05Retention(w *simrt.World, node *simnode.Node, p *c05plan, heavy bool, base uint64, layer string, budget int) {
+	if !heavy || w.Free() {
+		return
 	}
+	// let spawned handler tasks finish, then drop everything this run holds
+	c05Await(w, "main", func() bool { return false }, 2*time.Minute, budget)
+	node.Close()
+	w.Settle(3)
+	p.bytes = nil
+	for i := range p.segs {
+		p.segs[i].b = nil
+	}
+	live := c05Live()
+	if live > base+c05RetainBound {
+		w.Violationf("C05:retained:"+layer, "after the connection was closed, the node shut down and two GCs, the live heap is %d MiB above the baseline (bound %d MiB)", (live-base)>>20, c05RetainBound>>20)
+	}
+	w.Probe("retention.checked")
+}
+
+// c05WSGarbage: byte sequences that are not legal client frames (mask key 0).
+var c05WSGarbage = [][]byte{
+	{0x82, 0x05, 'h', 'e', 'l', 'l', 'o'},                        // unmasked data frame
+	{0xF2, 0x80, 0, 0, 0, 0},                                     // reserved bits set
+	{0x83, 0x80, 0, 0, 0, 0},                                     // reserved opcode
+	{0x80, 0x80, 0, 0, 0, 0},                                     // continuation without a start
+	{0x89, 0xFE, 0x00, 0x80, 0, 0, 0, 0},                         // control frame longer than 125
+	{0x82, 0xFF, 0x80, 0, 0, 0, 0, 0, 0, 0, 0, 0, 0, 0},          // 64-bit length with the top bit
+	{0x82, 0xFF, 0, 0, 0x01, 0, 0, 0, 0, 0, 0, 0, 0, 0, 1, 2, 3}, // 1 TiB declared, three bytes sent
+	{0x02, 0x81, 0, 0, 0, 0, 'x', 0x82, 0x81, 0, 0, 0, 0, 'y'},   // new message inside a fragmented one
+	{0x88, 0x81, 0, 0, 0, 0, 'x'},                                // close frame with a 1-byte payload
+	{0x09, 0x80, 0, 0, 0, 0},                                     // fragmented control frame
+	{'G', 'E', 'T', ' ', '/', ' ', 'H', 'T', 'T', 'P', '/', '1', '.', '1', '\r', '\n', '\r', '\n'}, // a second HTTP request
+}
+
+type c05wsop struct {
+	kind, split, garbage, code int
+}
+
+// c05ServeWS: the hostile peer speaks WebSocket. The server side is the real
+// wsServerConn (read deadline armed by pongs, ping loop, error mapping) over a
+// real gorilla connection, served by the node's real adapter read loop. The
+// peer sends the stream as binary messages (split, merged), mixes in text
+// messages, pings, unsolicited pongs, close frames and illegal frames, may or
+// may not answer the server's pings, and ends the connection in several ways
+// or just goes silent.
+func c05ServeWS(w *simrt.World, node *simnode.Node, p *c05plan, budget int, arm func()) (hostileSeen bool, ok bool) {
+	c := w.C
+	const layer = "serve-ws"
+	bufSize := []int{64 << 10, 4096, 1024}[c.Intn(3, "ws.bufsize")]
+	law := []simnet.Law{simnet.LawAll, simnet.LawMTU, simnet.LawMixed}[c.Intn(3, "ws.law")]
+	if len(p.bytes) > 32<<10 && law == simnet.LawMixed {
+		law = simnet.LawMTU
+	}
+	pump := c.Intn(2, "ws.pump") == 1 // the peer reads, so its library answers pings
+	goodbye := c.Intn(2, "ws.goodbye") == 1
+	ops := make([]c05wsop, len(p.segs))
+	for i := range ops {
+		ops[i] = c05wsop{kind: c.Intn(12, "ws.op"), split: 1 + c.Intn(4, "ws.split"), garbage: c.Intn(len(c05WSGarbage), "ws.garbage"), code: c.Intn(6, "ws.code")}
+	}
+	w.State(fmt.Sprintf("serve-ws/%s/end%d/pump%v/buf%d", simnet.LawNames[law], p.end, pump, bufSize))
+	w.Probe("transport.websocket")
+
+	cli, srv, a, b, err := simws.Pair(w, simnet.LinkConfig{NameA: "hostile-ws", NameB: "hostile-ws@" + node.ID, AddrA: "10.6.6.6:6666", LawAB: law}, bufSize)
+	if err != nil {
+		w.Violationf("C05:harness", "websocket handshake over the simulated link failed: %v", err)
+		return false, false
+	}
+	sw := &c05wsconn{Conn: adapter.NewWSServerConnForVerif(srv, "10.6.6.6:6666"), c05mon: c05mon{w: w, layer: layer}}
+	node.Adapter.Serve(sw)
+	arm()
+	srvClosed := func() bool { return b.Closed() }
+	defer a.Close()
+	if pump {
+		w.Spawn("ws-pump", func() {
+			for {
+				if _, _, err := cli.ReadMessage(); err != nil {
+					return
+				}
+			}
+		})
+	}
+	fail := func() {
+		a.Close()
+		b.Close()
+	}
+	sent := int64(0)
+	var carry []byte
+	carryFrom := int64(0)
+loop:
+	for i, s := range p.segs {
+		lo, hi := p.starts[i], p.starts[i]+int64(len(s.b))
+		if hi > int64(len(p.bytes)) {
+			hi = int64(len(p.bytes))
+		}
+		if lo >= hi {
+			break
+		}
+		seg := p.bytes[lo:hi]
+		op := ops[i]
+		rawBefore := b.BytesRead()
+		wsHostile := false
+		var werr error
+		sendBin := func(data []byte) {
+			n := op.split
+			if n > len(data) {
+				n = 1
+			}
+			for k := 0; k < n && werr == nil; k++ {
+				werr = cli.WriteMessage(websocket.BinaryMessage, data[k*len(data)/n:(k+1)*len(data)/n])
+			}
+		}
+		if len(carry) > 0 {
+			seg = append(carry, seg...)
+			lo = carryFrom
+			carry = nil
+		}
+		switch op.kind {
+		case 6:
+			werr = cli.WriteControl(websocket.PingMessage, []byte("are-you-there"), time.Now().Add(time.Second))
+			sendBin(seg)
+		case 7:
+			werr = cli.WriteControl(websocket.PongMessage, []byte("unsolicited"), time.Now().Add(time.Second))
+			sendBin(seg)
+		case 8:
+			t := seg
+			if len(t) > 4096 {
+				t = t[:4096]
+			}
+			werr = cli.WriteMessage(websocket.TextMessage, t)
+			wsHostile = true
+			w.Probe("ws.text-message")
+		case 9:
+			_, werr = a.Write(c05WSGarbage[op.garbage])
+			wsHostile = true
+			w.Probe("ws.illegal-frame")
+		case 10:
+			code := []int{websocket.CloseNormalClosure, websocket.CloseGoingAway, websocket.CloseProtocolError, 4000, websocket.CloseAbnormalClosure, websocket.CloseMessageTooBig}[op.code]
+			werr = cli.WriteControl(websocket.CloseMessage, websocket.FormatCloseMessage(code, "bye"), time.Now().Add(time.Second))
+			if werr == nil {
+				sendBin(seg) // data after the close frame
+			}
+			wsHostile = true
+			w.Probe("ws.close-frame-midstream")
+		case 11:
+			if i+1 < len(p.segs) && len(seg) < 1<<20 {
+				carry, carryFrom = append([]byte(nil), seg...), lo
+				continue
+			}
+			sendBin(seg)
+		default:
+			sendBin(seg)
+		}
+		if werr != nil {
+			w.Probe("serve-ws.server-closed-early")
+			break
+		}
+		sent = hi
+		gap := []time.Duration{0, time.Millisecond, 0, 7 * time.Second, 0, 41 * time.Second}[w.Draw(6, "gap")]
+		r := c05Await(w, "main", srvClosed, gap, budget)
+		if w.Free() {
+			return false, false
+		}
+		if (s.hostile && sw.delivered > lo) || (wsHostile && b.BytesRead() > rawBefore) {
+			hostileSeen = true
+		}
+		if sw.spun {
+			fail()
+			return hostileSeen, false
+		}
+		if r == "spin" {
+			w.Violationf("C05:termination:spin:"+layer, "after segment #%d %s the server tasks took more than %d scheduler steps without ever blocking (server consumed %d of %d stream bytes sent)", i, s.desc, budget, sw.delivered, sent)
+			fail()
+			return hostileSeen, false
+		}
+		if c05ServeAlloc(w, p, &sw.c05mon, i) {
+			fail()
+			return hostileSeen, false
+		}
+		if srvClosed() {
+			w.Probe("serve-ws.server-closed-early")
+			break loop
+		}
+		if op.kind == 9 {
+			break // nothing sensible can follow an illegal frame
+		}
+	}
+	if p.cut {
+		w.Fault("net.truncated")
+	}
+	endName := []string{"half-close", "close", "reset", "silent"}[p.end]
+	switch p.end {
+	case 0:
+		if goodbye {
+			cli.WriteControl(websocket.CloseMessage, websocket.FormatCloseMessage(websocket.CloseNormalClosure, ""), time.Now().Add(time.Second))
+		}
+		a.CloseWrite()
+	case 1:
+		if goodbye {
+			cli.WriteControl(websocket.CloseMessage, websocket.FormatCloseMessage(websocket.CloseGoingAway, ""), time.Now().Add(time.Second))
+		}
+		a.Close()
+	case 2:
+		a.Reset()
+		w.Fault("net.reset")
+	case 3:
+		// the peer goes silent (and, without the pump, deaf: it answers no ping)
+		w.Fault("net.stall")
+		r := c05Await(w, "main", srvClosed, c05Stall, budget)
+		if w.Free() {
+			return false, false
+		}
+		if sw.spun {
+			fail()
+			return hostileSeen, false
+		}
+		switch r {
+		case "spin":
+			w.Violationf("C05:termination:spin:"+layer+":stall", "server tasks never blocked while the WebSocket peer was silent (pump=%v; server consumed %d stream bytes)", pump, sw.delivered)
+			fail()
+			return hostileSeen, false
+		case "ok":
+			w.Probe("serve-ws.silent.server-closed")
+		default:
+			w.Probe("serve-ws.silent.server-waits")
+		}
+		if !pump {
+			hostileSeen = true // an idle, deaf peer aged past every transport-level timeout
+		}
+		a.Close()
+	}
+	r := c05Await(w, "main", srvClosed, c05TermBound, budget)
+	if w.Free() {
+		return false, false
+	}
+	if sw.spun {
+		fail()
+		return hostileSeen, false
+	}
+	sw.sample()
+	if c05ServeAlloc(w, p, &sw.c05mon, len(p.segs)-1) {
+		fail()
+		return hostileSeen, false
+	}
+	if r != "ok" {
+		cls := map[string]string{"spin": "spin", "timeout": "blocked"}[r]
+		w.Violationf("C05:termination:"+cls+":"+layer, "finite WebSocket stream (%d stream bytes sent, server consumed %d, end=%s, pump=%v): the adapter's read loop did not end and close the connection within %v (%s); connection still registered=%v",
+			sent, sw.delivered, endName, pump, c05TermBound, r, c05ConnID(node, sw) != "")
+		fail()
+		return hostileSeen, false
+	}
+	w.Probe("serve-ws.terminated")
+	return hostileSeen, true
 }
 
 // c05ServeAlloc checks the serve-layer allocation oracle: the most that was
@@ -1306,11 +1651,11 @@ func c05Node(w *simrt.World, g *c05gen, direct bool) {
 // decoded and dispatched at most one packet). The windows between two harness
 // writes are NOT the yardstick: one window may cover thousands of tiny packets
 // (and as many scheduler steps of harness bookkeeping).
-func c05ServeAlloc(w *simrt.World, p *c05plan, sw *c05conn, upto int) bool {
+func c05ServeAlloc(w *simrt.World, p *c05plan, sw *c05mon, upto int) bool {
 	if sw.maxDelta <= c05AllocBound {
 		return false
 	}
-	w.Violationf("C05:alloc:serve:"+c05WindowClass(p, upto), "between two consecutive Reads on the transport (server had consumed %d, then %d bytes of the stream; at most one packet is decoded and dispatched in between) the process allocated %d MiB (bound %d MiB = 8 x max body)\nbytes %d.. fall into segment %s",
+	w.Violationf("C05:alloc:"+sw.layer+":"+c05WindowClass(p, upto), "between two consecutive Reads on the transport (server had consumed %d, then %d bytes of the stream; at most one packet is decoded and dispatched in between) the process allocated %d MiB (bound %d MiB = 8 x max body)\nbytes %d.. fall into segment %s",
 		sw.maxFrom, sw.maxTo, sw.maxDelta>>20, c05AllocBound>>20, sw.maxFrom, c05SegDesc(p, sw.maxFrom))
 	return true
 }
